@@ -410,6 +410,11 @@ func (sfr *SegmentFileReader) loadBlockUsingBuffer(blockNum uint16) (bool, error
 
 // Returns the raw bytes of the record in the currently loaded block
 func (sfr *SegmentFileReader) ReadRecord(recordNum uint16) ([]byte, error) {
+	if !sfr.isBlockLoaded && sfr.someBlksAbsent {
+		// the column does not exist in the block that was asked for last
+		return nil, nil
+	}
+
 	// if dict encoding, we use the dictmapping
 	if sfr.encType == sutils.ZSTD_DICTIONARY_BLOCK[0] {
 		ret, err := sfr.deGetRec(recordNum)
@@ -770,6 +775,9 @@ func (sfr *SegmentFileReader) ValidateAndReadBlock(blockNum uint16) error {
 		valid, err := sfr.readBlock(blockNum)
 		if !valid {
 			sfr.someBlksAbsent = true
+			// The column has no data in this block: the block loaded before must
+			// not be served as this one by ReadRecord.
+			sfr.isBlockLoaded = false
 			log.Debugf("Skipped invalid block %d, error: %v", blockNum, err)
 			// This can happen if the column does not exist.
 			return nil
